@@ -49,12 +49,15 @@ def check(run, F, tier):
         return [p for p in r["paths"] if p.kind == "return"], r["interned"]
 
     def positive(p):
-        """count > 0 established on the path (Lt(0,count) true, or count != 0)."""
+        """count > 0 established on the path, in any spelling (`count > 0`, `count != 0`, `count >= 1`, a successful
+        `checked_sub(1)`): decided from the path's linear facts."""
         for k, c in p.cons.items():
             if k[0] == "cmp" and k[1] == "Lt" and k[2][0] == "c" and k[2][1] == 0 and k[3] == ("sym", cntt) and c == ("eq", 1):
                 return True
         c = p.cons.get(cntt)
-        return c is not None and c[0] == "ne" and 0 in c[1]
+        if c is not None and c[0] == "ne" and 0 in c[1]:
+            return True
+        return conn.decide(p, {}, ("c", 0, "u16"), "lt", ("sym", cntt)) is True
 
     # ------------------------------------------------------------------ R1 / R3
     r1 = run.rule("C12-R1", "every QoS>0 v5 PUBLISH emission / stored re-emission is counted when the peer announced Receive Maximum", floor=2)
@@ -206,7 +209,8 @@ def check(run, F, tier):
                         problems.setdefault("decrement not dominated by `count > 0` (a peer-triggered underflow panics / wraps)", p)
                 elif cw == []:
                     c = p.cons.get(cntt)
-                    zero = (c == ("eq", 0)) or any(k[0] == "cmp" and k[1] == "Lt" and k[2][0] == "c" and k[2][1] == 0 and k[3] == ("sym", cntt) and cc == ("eq", 0) for k, cc in p.cons.items())
+                    zero = (c == ("eq", 0)) or any(k[0] == "cmp" and k[1] == "Lt" and k[2][0] == "c" and k[2][1] == 0 and k[3] == ("sym", cntt) and cc == ("eq", 0) for k, cc in p.cons.items()) \
+                        or conn.decide(p, {}, ("sym", cntt), "le", ("c", 0, "u16")) is True
                     if not zero:
                         problems.setdefault("completed exchange with Receive Maximum announced does not decrement the counter", p)
                 else:
